@@ -352,6 +352,51 @@ theorem C33_rollback_restores (wd : List Nat) (txs : List Tx)
 example : (runHist ([], []) [.save [⟨1, [], [1, 2, 3], [], [true], []⟩, ⟨0, [4, 5], [], [], [true], []⟩], .save [⟨2, [], [6], [], [true], []⟩], .rollback]).1
     = [4, 5, 1, 2, 3] := by decide
 
+/-- **Single use inside the mempool**: whatever is submitted, two withdrawals held together never record
+    the same side-chain hash (payload versions 0, 1, 2 — the slot key function reads the hashes where each
+    version keeps them). -/
+theorem C33_pool_single_use (txs : List Tx) (hv : ∀ t ∈ txs, t.pver = 0 ∨ t.pver = 1 ∨ t.pver = 2) :
+    (txs.foldl poolAdd ([], [])).2.Pairwise (fun a b => ∀ x ∈ recorded a, x ∉ recorded b) := by
+  have hk : ∀ t : Tx, (t.pver = 0 ∨ t.pver = 1 ∨ t.pver = 2) → poolKeys t = recorded t := by
+    intro t h
+    unfold poolKeys recorded
+    rcases h with h | h | h <;> simp [h]
+  have key : ∀ (txs : List Tx) (st : List Nat × List Tx), (∀ t ∈ txs, t.pver = 0 ∨ t.pver = 1 ∨ t.pver = 2) →
+      (∀ b ∈ st.2, ∀ x ∈ recorded b, x ∈ st.1) →
+      st.2.Pairwise (fun a b => ∀ x ∈ recorded a, x ∉ recorded b) →
+      (txs.foldl poolAdd st).2.Pairwise (fun a b => ∀ x ∈ recorded a, x ∉ recorded b) := by
+    intro txs
+    induction txs with
+    | nil => intro st _ _ hp; exact hp
+    | cons t rest ih =>
+      intro st hv hsub hp
+      simp only [List.foldl_cons]
+      have hvt := hv t List.mem_cons_self
+      apply ih _ (fun u hu => hv u (List.mem_cons_of_mem _ hu))
+      · unfold poolAdd
+        split
+        · exact hsub
+        · intro b hb x hx
+          simp only at hb ⊢
+          rcases List.mem_cons.1 hb with rfl | hb
+          · exact List.mem_append.2 (Or.inl (by rw [hk b hvt]; exact hx))
+          · exact List.mem_append.2 (Or.inr (hsub b hb x hx))
+      · unfold poolAdd
+        split
+        · exact hp
+        · rename_i hany
+          simp only
+          apply List.Pairwise.cons _ hp
+          intro b hb x hx hxb
+          apply hany
+          apply List.any_eq_true.2
+          refine ⟨x, by rw [hk t hvt]; exact hx, ?_⟩
+          simpa using hsub b hb x hxb
+  exact key txs ([], []) hv (by intro b hb; cases hb) List.Pairwise.nil
+
+example : ((([⟨1, [], [1, 2], [], [true], []⟩, ⟨1, [], [2], [], [true], []⟩, ⟨2, [], [3], [], [true], []⟩] : List Tx).foldl
+    poolAdd ([], [])).2.map (·.outputHashes)) = [[3], [1, 2]] := by decide
+
 /-- after `SchnorrStartHeight` only V2 is accepted -/
 theorem C33_only_schnorr_after_start (c : Cfg) (l : Ledger) (height : Nat) (t : Tx)
     (hh : height > c.schnorrStart) (h : specialCheck c l height t = none) : t.pver = 2 := by
